@@ -1,6 +1,6 @@
 (* C06 - Schema validation always terminates with a verdict and never panics. *)
 From Coq Require Import List ZArith Bool.
-From Verif Require Import Base.Sx Base.GoVal Schema.Ast Schema.Build Schema.Pipeline Schema.PipelineTotal Schema.PipelineTerm.
+From Verif Require Import Base.Sx Base.GoVal Schema.Ast Schema.Build Schema.Pipeline Schema.PipelineTotal Schema.PipelineTerm Schema.Agreement Schema.AgreementDec.
 Import ListNotations.
 Open Scope Z_scope.
 
@@ -42,15 +42,9 @@ Print Assumptions C06_schemas_without_references_terminate_partial.
 Definition c06_example : schema :=
   set_props [(40, set_items_one (Some (set_not (Some empty_schema) empty_schema)) empty_schema)]
     (set_add_props (Some (true, Some (set_all_of [empty_schema] empty_schema))) empty_schema).
-Ltac kids_solve :=
-  repeat (unfold kids, c06_example in *; cbn in *; match goal with
-          | |- _ /\ _ => split
-          | |- forall _, _ => intro
-          | H : None = Some _ |- _ => discriminate H
-          | H : Some _ = Some _ |- _ => inversion H; subst; clear H
-          | |- Forall _ [] => constructor
-          | |- Forall _ (_ :: _) => constructor
-          | |- _ = None => reflexivity
-          end).
 Example C06_bounded_somewhere : bounded 4 c06_example.
-Proof. kids_solve. Qed.
+Proof.
+  apply (clean_bounded (finP (fun _ => true)) false {| o_rune_len := fun _ => 0; o_re_ok := fun _ => true; o_re_match := fun _ _ => false;
+                                                       o_fmt_known := fun _ => false; o_fmt_check := fun _ _ => true |}).
+  apply clean_b_sound. vm_compute. reflexivity.
+Qed.
